@@ -2371,9 +2371,16 @@ class Interp:
                         recv.update(a)
                     elif isinstance(a, Unknown):
                         self.event("extwrite", "dict", "update")
+                    elif isinstance(a, (bool, int, float)) or a is None:
+                        raise PyRaise(ExcVal("TypeError", (f"'{type(a).__name__}' object is not iterable",)))
                     else:
-                        for k, v in self.iterate(a):
-                            recv[k] = v
+                        for i_, pair in enumerate(self.iterate(a)):
+                            if isinstance(pair, Unknown):
+                                self.event("extwrite", "dict", "update")
+                                continue
+                            if not isinstance(pair, (tuple, list)) or len(pair) != 2:
+                                raise PyRaise(ExcVal("ValueError", (f"dictionary update sequence element #{i_} has length {len(pair) if hasattr(pair, '__len__') else '?'}; 2 is required",)))
+                            recv[pair[0]] = pair[1]
                 recv.update(kwargs)
                 return None
             if name == "clear":
